@@ -138,8 +138,104 @@ def silent_event_cases(ctx):
                            "calls": [list(map(repr, c)) for c in dev.calls[:12]], "first_failing_clause": "silent events produce no messages at all"})
 
 
+# ---- several output devices: the note-off goes to the device that got the note-on --------------------------------------
+# "followed by exactly one note-off for the same note and channel" — on the same DEVICE, whatever happens to the track
+# while the note sounds (named re-scheduling that mentions another device, update, mute, unschedule, clear).
+
+def multi_device_cases(ctx):
+    import isobar as iso
+    from isobar.io.output import OutputDevice
+    r = ctx.rng
+
+    class Rec(OutputDevice):
+        def __init__(self, name):
+            super().__init__()
+            self.name, self.log = name, []
+
+        def note_on(self, note=60, velocity=64, channel=0):
+            self.log.append(("on", note, channel))
+
+        def note_off(self, note=60, channel=0):
+            self.log.append(("off", note, channel))
+
+    for i in range(ctx.scale(200, 10000)):
+        tpb = r.choice([2, 4, 8])
+        devs = [Rec("d%d" % k) for k in range(r.randint(2, 3))]
+        tl = iso.Timeline(tempo=120, output_device=devs[0], clock_source=sched_impl.DummyClock(ticks_per_beat=tpb))
+        for d in devs[1:]:
+            tl.add_output_device(d)
+        names = ["a", "b", "c"]
+        script = []
+
+        def events():
+            return {"note": iso.PSequence([r.randint(40, 80) for _ in range(r.randint(1, 4))]),
+                    "duration": r.choice([0.5, 1, 2]), "gate": r.choice([0.5, 1, 1.5, 3]), "channel": r.randint(0, 3)}
+        for step in range(r.randint(4, 12)):
+            op = r.choice(["sched", "sched", "replace", "tick", "tick", "tick", "unsched", "mute", "clear"])
+            try:
+                if op == "sched":
+                    nm, dv = r.choice(names), r.choice(devs)
+                    tl.schedule(events(), name=nm, replace=True, output_device=dv)
+                    script.append("schedule(name=%s, device=%s)" % (nm, dv.name))
+                elif op == "replace":
+                    live = [t for t in tl.tracks if t.name]
+                    if live:
+                        t = r.choice(live)
+                        dv = r.choice(devs)
+                        tl.schedule(events(), name=t.name, replace=True, output_device=dv, quantize=r.choice([0, 1]))
+                        script.append("replace(name=%s, device=%s)" % (t.name, dv.name))
+                elif op == "tick":
+                    n = r.randint(1, 3 * tpb)
+                    for _ in range(n):
+                        tl.tick()
+                    script.append("tick %d" % n)
+                elif op == "unsched" and tl.tracks:
+                    t = r.choice(tl.tracks)
+                    tl.unschedule(t)
+                    script.append("unschedule(%s)" % t.name)
+                elif op == "mute" and tl.tracks:
+                    r.choice(tl.tracks).mute()
+                    script.append("mute")
+                elif op == "clear":
+                    tl.clear()
+                    script.append("clear")
+            except StopIteration:
+                pass
+        tl.clear()
+        for _ in range(2):
+            try:
+                tl.tick()
+            except StopIteration:
+                break
+        bad = None
+        for d in devs:
+            sounding = {}
+            for (what, note, ch) in d.log:
+                key = (note, ch)
+                if what == "on":
+                    sounding[key] = sounding.get(key, 0) + 1
+                else:
+                    if sounding.get(key, 0) <= 0:
+                        bad = "device %s received a note-off for %s it never received a note-on for" % (d.name, key)
+                        break
+                    sounding[key] -= 1
+            stuck = {k: v for k, v in sounding.items() if v}
+            if not bad and stuck:
+                bad = "device %s is left with %s sounding after clear()" % (d.name, stuck)
+            if bad:
+                break
+        ctx.case(("multi-device", i, tuple(script)), nontrivial=any(s.startswith("replace") for s in script), validated=False,
+                 sample={"part": "several devices", "devices": len(devs), "script": script[:12]})
+        ctx.count("multi-device")
+        if bad:
+            ctx.violation("C02:note-off-on-another-device", bad + "; history: " + "; ".join(script),
+                          {"suite": "c02-devices", "script": script, "tpb": tpb, "logs": {d.name: [list(x) for x in d.log[:40]] for d in devs},
+                           "first_failing_clause": "one note-off for the same note and channel (on the device that got the note-on)"})
+
+
 def run(ctx):
     silent_event_cases(ctx)
+    multi_device_cases(ctx)
     n = ctx.scale(2000, 150000)
     sched_suite.run_suite(ctx, PROF, n, "c02", [oracle], sounding_at_change, signature_of)
 
